@@ -21,7 +21,7 @@ FUNCTIONS = ["Facts::new", "Facts::set", "Facts::set_nested", "Facts::set_nested
 KEYS = ["a", "b", "c"]
 TIERS = {
     "quick": [{"K": 5, "keys": 2}, {"K": 6, "keys": 1}],
-    "thorough": [{"K": 7, "keys": 2}, {"K": 6, "keys": 3}],
+    "thorough": [{"K": 6, "keys": 2}, {"K": 5, "keys": 3}],
 }
 ASSUMPTIONS = [
     "keys from {a,b,c}; values are Integer(0..3) or an Object with at most the field x; set_nested paths are 'k.x'",
